@@ -112,6 +112,26 @@ def run(W, chk):
         ok = {"sub:r", "mul"} <= t and "sub:l" not in t and T not in rhs and "info.funds[*].amount" in lhs and "Store(POOLS).assets[*].amount" in rhs and strict
         chk.expect(ok, "POLAR-deposit-tolerance", "cp.bb%d" % e.bb, "reject iff deposit_ratio * (1 - tolerance) > pool_ratio (larger tolerance never rejects more)",
                    "constant-product deposit check is %s > %s" % ({k: sorted(v) for k, v in lhs.items()}, {k: sorted(v) for k, v in rhs.items()}), where(e))
+    # both orientations of the price are checked, and for the same orientation on both sides: when the ratios are built from
+    # constant positions (x[0]/x[1]), the deposit ratios and the pool ratios use the same set of (numerator, denominator) positions
+    from rules.common import positions
+    dep_r, pool_r = set(), set()
+    for e in P.calls(r"Decimal256::(from_ratio|checked_from_ratio)$"):
+        a, b = e.extra["dargs"][0], e.extra["dargs"][1]
+        pa_, pb_ = positions(a), positions(b)
+        if len(pa_) != 1 or len(pb_) != 1:
+            continue
+        oa, ob = exact_origins(a), exact_origins(b)
+        if oa == ob == {"info.funds[*].amount"}:
+            dep_r.add((min(pa_), min(pb_)))
+        elif oa == ob == {"Store(POOLS).assets[*].amount"}:
+            pool_r.add((min(pa_), min(pb_)))
+    if dep_r or pool_r:
+        chk.expect(dep_r == pool_r and all(a != b for (a, b) in dep_r), "AGREE-deposit-ratio-orientation", "constant product",
+                   "deposit ratios and pool ratios are taken at the same positions: %s" % sorted(dep_r),
+                   "deposit ratios use positions %s but pool ratios use %s" % (sorted(dep_r), sorted(pool_r)), P.entry)
+    else:
+        chk.skip("AGREE-deposit-ratio-orientation", "constant product", "ratios are not built from constant positions")
     for (e, g, sm, strict, pos) in ss:
         lhs = opmap(g)
         ok = T not in lhs and not ops_of(sm) and strict
